@@ -703,7 +703,9 @@ def run_life(seed, role, cause, point, blocked_consumer, restart=True, hook=None
             sc.run(until=lambda: any(n.classify(m) == "DPR" for m in frames_of(n)), limit=8000)
             dprs = [m for m in frames_of(n) if n.classify(m) == "DPR"]
             if dprs:
-                dpa = n.make("DPA", True, 1)
+                # the peer's DPA: plain, or (every third scenario) a protocol-error answer with the E bit / one without a Result-Code;
+                # the peer keeps the transport up, as the receiver of a DPR does
+                dpa = n.make("DPA", seed % 3 != 1, 1, variant=1 + (seed // 3) % 2)
                 dpa.header.hop_by_hop, dpa.header.end_to_end = dprs[0].header.hop_by_hop, dprs[0].header.end_to_end
                 n.feed(dpa.dump())
         elif cause == "dpr":
